@@ -126,14 +126,14 @@ def bind_chunk_shims(sym):
         fsmod.PredefinedCrc = RealPredefinedCrc
 
 
-def h_chunks(ctx, M, ck):
+def h_chunks(ctx, M, ck, hi=4096):
     """the chunk loop of the real NativeFilestore.calculate_checksum feeds exactly the prefix"""
     w = World(ctx)
     bind_chunk_shims(w.sym)
     ctype = {"crc32": ChecksumType.CRC_32, "crc32c": ChecksumType.CRC_32C}[ck]
-    flen = ctx.int("file_len", 0, 4096)
-    size = ctx.int("size_to_verify", 0, 4096)
-    seg = ctx.int("segment_len", 0, 4096)
+    flen = ctx.int("file_len", 0, hi)
+    size = ctx.int("size_to_verify", 0, hi)
+    seg = ctx.int("segment_len", 0, hi)
     ctx.assume(size <= flen)  # prefix lengths up to the file size
     ctx.assume(size <= M * seg)  # bounds the chunk loop
     fs = NativeFilestore()
@@ -462,6 +462,9 @@ def plan(tier):
         m = 4 if q else 8
         specs.append(Spec(f"chunk-loop/{ck}/M={m}", "vf.harness.c09:h_chunks", {"M": m, "ck": ck}, twin_share=1.0,
                           obligations=["zero_segment_len_refused"] + [f"chunks={i}" for i in range(0, m + 1)]))
+    # chunk lengths and files up to 128 KiB (a read hook that returns less than it was asked for shows here)
+    specs.append(Spec("chunk-loop/crc32/large-chunks/M=2", "vf.harness.c09:h_chunks", {"M": 2, "ck": "crc32", "hi": 1 << 17},
+                      twin_share=1.0))
     nmax = 6 if q else 9
     for n in range(0, nmax + 1):
         for k in range(0, n + 1):
